@@ -713,6 +713,12 @@ func (c *diskCache) get(ctx context.Context, kind cache.EntryKind, hash string, 
 		return nil, -1, internalErr(err)
 	}
 
+	if (kind != cache.CAS || c.storageMode == casblob.Identity) && sizeOnDisk != foundSize {
+		// Compressed CAS blobs are checked against their header below.
+		return nil, -1, internalErr(fmt.Errorf("expected %d bytes from the proxy backend, received %d",
+			foundSize, sizeOnDisk))
+	}
+
 	rcf, err := os.Open(blobFile)
 	if err != nil {
 		return nil, -1, internalErr(err)
